@@ -313,6 +313,10 @@ func (m *Manager) newStream(ctx context.Context, sid uint64, kind, rpc string) (
 		return stream, nil
 
 	case <-m.sigs.term.Signal():
+		// the stream is registered but will never be managed, so nothing else
+		// cancels it: do it here so that the reader is not left delivering
+		// packets to it.
+		stream.Cancel(m.sigs.term.Err())
 		return nil, m.sigs.term.Err()
 	}
 }
